@@ -1089,6 +1089,11 @@ RAW_FRAMES = {
     'brackets': '[]', 'connerr': '4{"message":"x"}', 'badjson': '2[',
     'badjson2': '2{"a"', 'dictpayload': '2{"a":1}', 'emptylist': '2[]',
     'numpayload': '21', 'longid': '2' + '1' * 101 + '["e_v"]',
+    # an integer literal of more than 100 digits anywhere in the JSON text is
+    # not decoded (python-engineio's json front end)
+    'longnum': '2["e_v",' + '7' * 101 + ']',
+    'longnumack': '31[' + '7' * 150 + ']',
+    'longnumconn': '0{"t":' + '7' * 101 + '}',
     'nsnocomma': '2/a', 'dashfirst': '2-["e_v"]',
     'deepjson': '2' + '[' * 2000 + ']' * 2000, 'bytes': b'\x00\x01',
     'count11': '512345678901-["e_v"]',
